@@ -165,7 +165,8 @@ class Harvest(Stream):
 
 
 PROBE_PATHS = ["README.txt", "VERSION", "sub/keep.txt", "sub", "src", "src/inner_mod.py", "missing.txt", "sub/missing", "{pkg}", "{pkg}/__init__.py",
-               "./README.txt", "sub\\keep.txt", "helper_mod.py", "setup.py", "keep.txt", "inner_mod.py"]
+               "./README.txt", "sub\\keep.txt", "helper_mod.py", "setup.py", "keep.txt", "inner_mod.py",
+               "READ", "helper_mod", "sub/keep", "VERS", "sub/ke"]
 
 
 def _probe_setup_py(ops, spec):
@@ -403,6 +404,8 @@ def views_of_spec(spec):
     base = [k for k in (_req_key(GL.P(t)) for t in spec["requires"]) if k is not None]
     if spec.get("cond_dir") and spec["style"] == "kwargs":
         base.append(_req_key(GL.P("dirdep>=1")))
+    if spec.get("cond_missing") and spec["style"] == "kwargs":
+        base.append(_req_key(GL.P("nodir>=1")))
     if spec["style"] == "kwargs":
         for k, rs in spec.get("marker_extra", {}).items():
             for t in rs:
@@ -435,6 +438,9 @@ class DeclaredVsExtracted(Stream):
         for sp in (a, b):
             if sp["style"] == "kwargs" and rng.random() < 0.2:
                 sp["cond_dir"] = rng.choice(["sub", "src"])
+            elif sp["style"] == "kwargs" and rng.random() < 0.15:
+                # a path that does not exist but is the beginning of a sibling's name (`.git` / `.gitignore`)
+                sp["cond_missing"] = rng.choice(["helper", "READ", "sub/kee"])
         if rng.random() < 0.3:
             # the first project imports its helper module and then fails in-process (it spawns a process), so it is
             # analysed by the fallback; the second project imports a helper module of the same name
@@ -507,6 +513,8 @@ class DeclaredVsExtracted(Stream):
             fl.append("marker-extra")
         if s.get("cond_dir"):
             fl.append("requirement-conditional-on-directory")
+        if s.get("cond_missing"):
+            fl.append("requirement-conditional-on-missing-path")
         if "spawn-uncaught" in case["first"].get("prelude", []):
             fl.append("first-project-falls-back-after-importing-helper")
         if case["first"]["name"] == s["name"]:
